@@ -1,4 +1,4 @@
-\* thorough: the 2-nest, core+ alphabet, length <= 3 ... and core, length <= 4 would be 1.6M: use 3
+\* thorough: the 2-nest, core+ alphabet (adds parallel do, kernels, master), length <= 3
 CONSTANTS Alphabet = "core+"
  MaxLen = 3
  Skels = {"G"}
